@@ -19,6 +19,8 @@
 //!   new <max_connections> <auth>                    fresh router, will-handler map, runtime
 //!   conn <c> <4|5> <connect CTF…>                   open stream c on a V4 / V5 listener, send CONNECT,
 //!                                                   read one packet        => <CTF> | eof
+//!   connclose <c> <4|5> <connect CTF…>              like conn, but the client end is dropped right after the
+//!                                                   CONNECT was written (the broker cannot answer) => ok
 //!   send <c> <packet CTF…>                          client encoder + write => ok | closed | unencodable
 //!   raw <c> <hex>                                   write raw bytes        => ok | closed
 //!   recv <c>                                        read one packet        => <CTF> | eof | undecodable:<hex>
@@ -303,6 +305,31 @@ impl World {
                 }
                 self.conns[c] = Some(h);
                 out
+            }
+            "connclose" => {
+                // CONNECT, then the peer is gone before the broker can answer: both halves of the
+                // client end are dropped right after the write (the bytes stay readable for the broker)
+                let c: usize = t[1].parse().unwrap();
+                let ver: u8 = t[2].parse().unwrap();
+                let Some(u) = parse_ctf(&t[3..]) else { return "bad-ctf".into() };
+                let Some(bytes) = client_encode(ver, &u) else { return "unencodable".into() };
+                let (client, server) = tokio::io::duplex(1 << 20);
+                let tx = self.router_tx.clone().expect("new first");
+                let cfg = self.cfg.clone();
+                let wills = self.wills.clone();
+                let task = if ver == 4 {
+                    tokio::spawn(verif_remote(cfg, tx, Box::new(server), V4, wills))
+                } else {
+                    tokio::spawn(verif_remote(cfg, tx, Box::new(server), V5, wills))
+                };
+                let mut h = ConnH { client: Some(client), task: Some(task), ver, rbuf: BytesMut::new(), eof: true };
+                let ok = World::write(&mut h, &bytes).await;
+                h.client = None;
+                while self.conns.len() <= c {
+                    self.conns.push(None);
+                }
+                self.conns[c] = Some(h);
+                if ok { "ok".into() } else { "closed".into() }
             }
             "send" => {
                 let c: usize = t[1].parse().unwrap();
@@ -899,6 +926,48 @@ fn case_poison_will(o: &mut Out, id: &str, wv: u8, sv: u8) {
     o.st.nontrivial(&("poison", wv, sv));
 }
 
+/// C16: the client sends DISCONNECT and, in the same write, bytes the decoder refuses: it did send
+/// DISCONNECT first, so the will must not be published
+fn case_disconnect_then_garbage(o: &mut Out, id: &str, wv: u8, sv: u8, garbage: &str) {
+    o.case(id);
+    o.op("new 10 none");
+    o.op(&format!("conn 0 {sv} {}", connect_ctf(sv, KA_LONG, "s0", true, "N", None, None)));
+    o.op(&format!("send 0 {}", sub_ctf(1, "w/#", 1, None)));
+    o.op("sync 0");
+    o.op(&format!("conn 1 {wv} {}", connect_ctf(wv, KA_LONG, "w", true, "N", Some(("w/1", "gone", 1, false, "N")), None)));
+    o.op(&format!("raw 1 e000{garbage}"));
+    o.op("eof 1");
+    o.op("join 1");
+    o.op("sync 0");
+    o.op("end");
+    o.st.nontrivial(&("disc-garbage", wv, sv, garbage.to_string()));
+}
+
+/// C16 + C19: the peer sends a CONNECT with a will and is gone before the CONNACK can be written.
+/// The connection ended without DISCONNECT: the will is owed; and its slot must be free again:
+/// with `max_connections = 2` and only the watcher really connected a fresh client is admitted.
+fn case_connect_then_gone(o: &mut Out, id: &str, wv: u8, sv: u8, with_will: bool) {
+    o.case(id);
+    o.op("new 2 none");
+    o.op(&format!("conn 0 {sv} {}", connect_ctf(sv, KA_LONG, "s0", true, "N", None, None)));
+    o.op(&format!("send 0 {}", sub_ctf(1, "w/#", 1, None)));
+    o.op("sync 0");
+    let will = if with_will { Some(("w/1", "gone", 1, false, "N")) } else { None };
+    o.op(&format!("connclose 1 {wv} {}", connect_ctf(wv, KA_LONG, "w", true, "N", will, None)));
+    o.op("join 1");
+    o.op("sync 0");
+    // only the watcher is connected: there is room for one more
+    let r = o.op(&format!("conn 2 {wv} {}", connect_ctf(wv, KA_LONG, "fresh", true, "N", None, None)));
+    if r.starts_with("connack") {
+        o.op("sync 2");
+    } else {
+        o.op("join 2");
+    }
+    o.op("sync 0");
+    o.op("end");
+    o.st.nontrivial(&("connect-gone", wv, sv, with_will));
+}
+
 /// C16 (server part): willing client W on a `wv` listener, `nsub` subscribers to the will topic,
 /// W ends by `cause`; with a will delay the same client id may reconnect before it elapses.
 #[allow(clippy::too_many_arguments)]
@@ -1279,6 +1348,18 @@ fn run_inner(o: &Opts) {
                             let id = format!("poison{wv}{sv}");
                             run_twice(&mut out, &|o| case_poison_will(o, &id, wv, sv));
                         }
+                        for (k, garbage) in ["f000", "0000", "3000", "ffffffffff", "1000"].iter().enumerate() {
+                            if mine() {
+                                let id = format!("discgarbage{wv}{sv}-{k}");
+                                run_twice(&mut out, &|o| case_disconnect_then_garbage(o, &id, wv, sv, garbage));
+                            }
+                        }
+                        for with_will in [true, false] {
+                            if mine() {
+                                let id = format!("connectgone{wv}{sv}-w{}", with_will as u8);
+                                run_twice(&mut out, &|o| case_connect_then_gone(o, &id, wv, sv, with_will));
+                            }
+                        }
                     }
                 }
                 let causes = [EndCause::Eof, EndCause::KeepAlive, EndCause::Malformed, EndCause::UnsolicitedAck, EndCause::DisconnectFirst];
@@ -1319,6 +1400,12 @@ fn run_inner(o: &Opts) {
                         if mine() {
                             let id = format!("poison{wv}{sv}");
                             run_twice(&mut out, &|o| case_poison_will(o, &id, wv, sv));
+                        }
+                        for with_will in [true, false] {
+                            if mine() {
+                                let id = format!("connectgone{wv}{sv}-w{}", with_will as u8);
+                                run_twice(&mut out, &|o| case_connect_then_gone(o, &id, wv, sv, with_will));
+                            }
                         }
                     }
                 }
